@@ -22,7 +22,6 @@ import (
 	"github.com/database64128/shadowsocks-go/netio"
 	"github.com/database64128/shadowsocks-go/zerocopy"
 
-	"verifsim/props/core"
 	"verifsim/props/util"
 	"verifsim/sim/simrt"
 )
@@ -75,21 +74,6 @@ func expectProbes() []string {
 
 // The temporary property C05X runs the codec half alone (`vcheck C05X`); the service-level C05
 // property calls RunCodec itself.
-func init() {
-	core.Register(&core.Prop{
-		ID:           "C05X",
-		Run:          RunCodec,
-		MaxSteps:     20000,
-		QuickRuns:    40000,
-		ThoroughSecs: 300,
-		Rule:         Rule,
-		Real:         Real,
-		Stub:         Stub,
-		Assumptions:  Assumptions,
-		ExpectProbes: ExpectProbes,
-	})
-}
-
 const (
 	kCanary  uint64 = 0xc05ca7a7
 	kPayload uint64 = 0xc05da7a0
